@@ -108,12 +108,39 @@ class Ctx:
         """Run one section of a check; an engine failure inside it is recorded (CHECKER-ERROR, exit 3 unless a violation is
         found elsewhere) and the remaining sections still run, so one construct the engine cannot execute does not hide
         the obligations that can still be decided."""
+        from .sym import explore, current_path
+        sect = getattr(fn, "__name__", "section").lstrip("_")
+        if current_path() is not None:
+            return fn(*a, **k)                  # already inside an explored path
+        start = len(self.obs)
         try:
-            return fn(*a, **k)
+            # a section that does not fork runs exactly once; if the code under test branches on a symbolic value outside
+            # any claim-level exploration, the whole section is re-run on every path and obligations of the same name
+            # are merged: the worst verdict wins (proved only if proved on every path)
+            runs = explore(lambda: fn(*a, **k), max_paths=16, on_budget="stop")
         except Exception:
             tb = traceback.format_exc()
-            self.add(Ob("%s.engine.%s" % (self.prop, getattr(fn, "__name__", "section").lstrip("_")), "guard", "error", "python", 0.0, tb[-1500:]))
+            self.add(Ob("%s.engine.%s" % (self.prop, sect), "guard", "error", "python", 0.0, tb[-1500:]))
             return None
+        if len(runs) > 1:
+            rank = dict(proved=0, undecided=1, error=2, failed=3)
+            merged, order = {}, []
+            for o in self.obs[start:]:
+                cur = merged.get(o.name)
+                if cur is None:
+                    merged[o.name] = o
+                    order.append(o.name)
+                elif rank.get(o.status, 1) > rank.get(cur.status, 1):
+                    merged[o.name] = o
+            del self.obs[start:]
+            for nm in order:
+                o = merged[nm]
+                o.detail = (o.detail + " [section explored on %d paths]" % len(runs))[:1200]
+                self.obs.append(o)
+            if getattr(runs, "truncated", False):
+                self.add(Ob("%s.paths_exhausted.%s" % (self.prop, sect), "guard", "undecided", "path-enumeration", 0.0,
+                            "the code under test branches on data: %d paths run, path budget exhausted" % len(runs)))
+        return runs[0][1] if runs else None
 
     def ob(self, name, kind, ok, backend="", time_s=0.0, detail="", cex=None, native=None):
         """Record an obligation decided by the caller: ok True/False/None(undecided)."""
